@@ -219,6 +219,12 @@ func (fs frameSpec) build(rng *rand.Rand) []byte {
 func randFrameSpec(rng *rand.Rand, boundPort int, boundIP net.IP) frameSpec {
 	fs := frameSpec{version: 4, ihl: 5, proto: 17, src: net.IP(randBytes(rng, 4)), dst: net.IPv4bcast, sport: 67, dport: boundPort,
 		payload: randBytes(rng, pick(rng, 0, 1, 2, 7, 8, 9, 240, 300, rng.Intn(600))), cut: -1}
+	if rng.Intn(4) == 0 {
+		// senders without an address yet (every client before it has a lease), broadcast, loopback, link-local, multicast sources:
+		// the source is reported as it stands in the header
+		fs.src = []net.IP{{0, 0, 0, 0}, {0, 0, 0, 0}, {255, 255, 255, 255}, {127, 0, 0, 1}, {169, 254, 1, 2}, {224, 0, 0, 1}, {10, 0, 0, 255}}[rng.Intn(7)]
+		fs.sport = []int{68, 67, 0, 65535, 1024}[rng.Intn(5)]
+	}
 	if boundIP != nil && rng.Intn(2) == 0 {
 		fs.dst = boundIP
 	}
